@@ -260,3 +260,70 @@ Proof. vm_compute. repeat split; try reflexivity. discriminate. Qed.
 Print Assumptions C11_sequence_mirror.
 Print Assumptions C11_seeding_mirror.
 Print Assumptions C11_on_grid.
+
+(* ==================================================================================================================================
+   APPENDED: THE FIRST-PASS STATEMENT AS A WHOLE IS REFUTED ON EXACT TIES (finding F14; proofs/MirrorTieProofs.v)
+
+   Full statement of C11 on the run model (Coordinator.align_query = _WorkflowCoordinator.__align, with the executable seeding stage
+   Seeding.seeds_model = getInitialAlignment on both strands of every reference, find_peaks, selectPeaks, refine):
+       for all P, sp, refs, q on a lattice commensurate with both resolutions, 2 * DMAX P < step:
+         align_query P (seeds_model sp) refs q it = Ok (Some w, _)  ->
+         exists w', align_query P (seeds_model sp) refs (mirror_map q) it = Ok (Some w', _) /\
+           rrev w' = negb (rrev w) /\ rs w' = rs w /\ re w' = re w /\ conf w' = conf w /\
+           row_site_pairs (rsegs w') = map (flipq (msum q)) (row_site_pairs (rsegs w)).
+   This is FALSE.  By C11_seeding_mirror the correlations of (mirror q, strand s) are those of (q, not s), so the run of mirror(q) is the
+   run of q with the two strands of every reference enumerated in the opposite order (__getPrimaryCorrelations yields forward before
+   reverse).  selectPeaks is a STABLE sort by score and __getBestAlignment keeps the FIRST candidate of maximal confidence: whenever two
+   seeds on opposite strands of one reference have exactly equal scores (and their rows equal confidence), q and mirror(q) both report
+   the one on the FORWARD strand - two different places of the reference, both with Orientation '+'.
+   Exact score ties between the strands need equal heights AND equal r.m.s. levels of the two correlations: a reference whose bit vector
+   is a palindrome (labels symmetric, first label in bin 0) - then the reverse-strand correlation is the forward one read backwards.
+   (Equally good candidates on two different references, or on one strand, are enumerated in the same order for q and mirror(q): no
+   asymmetry; a palindromic molecule q = mirror(q) can satisfy the statement under no deterministic program.)
+
+     C11_first_pass_mirror_refuted   a concrete lattice input (reference = palindrome of 10 labels, query = its labels 2-5, command-line
+                                     defaults with -d 650): q is reported on '+' at labels 2-5, mirror(q) on '+' at labels 6-9, both with
+                                     Confidence 3808; the real program writes exactly these two records (known_findings.json F14).
+     C11_tie_mechanism               on that input the two best seeds of q are on opposite strands and score_leb holds both ways (exact tie);
+                                     the seed lists of q and mirror(q) are the same two places with the forward one first in both.
+   The deterministic half above (C11_align, C11_row: every candidate row of mirror(q) is the mirror image of a candidate row of q) and
+   C11_seeding_mirror are unaffected: what fails is only the ORDER in which equal candidates are enumerated. *)
+Require Import Coordinator Seeding MirrorTieProofs.
+
+Theorem C11_first_pass_mirror_refuted :
+  exists P refs q w w' it it',
+    (0 <= DMAX P /\ 2 * DMAX P < 14000 /\ mshift q = 0 /\
+     Forall (fun r => StronglySorted Z.lt (mpositions r) /\ on_lattice 14000 (mpositions r)) refs /\
+     StronglySorted Z.lt (mpositions q) /\ on_lattice 14000 (mpositions q) /\ on_grid 14000 (mlen q - K) (mpositions q)) /\
+    align_query P (seeds_model default_sparams) refs q 1 = Ok (Some w, it) /\
+    align_query P (seeds_model default_sparams) refs (mirror_map q) 1 = Ok (Some w', it') /\
+    row_view w  = (1, false, 76160, (112000, 378000), (0, 266000), [(2, 1); (3, 2); (4, 3); (5, 4)]) /\
+    row_view w' = (1, false, 76160, (462000, 728000), (0, 266000), [(6, 1); (7, 2); (8, 3); (9, 4)]) /\
+    ~ (rrev w' = negb (rrev w) /\ Multi.rs w' = Multi.rs w /\ Multi.re w' = Multi.re w /\ conf w' = conf w /\
+       row_site_pairs (rsegs w') = map (flipq (msum q)) (row_site_pairs (rsegs w))).
+Proof. exact first_pass_mirror_refuted. Qed.
+
+Theorem C11_tie_mechanism :
+  match all_primary default_sparams [tie_ref] tie_q with
+  | Ok l => match select_primary default_sparams l with
+            | a :: b :: _ => (pp_rev a, pp_pos a, pp_rev b, pp_pos b) = (false, 11899, true, 46899) /\ Qeq (pp_height a) (pp_height b) /\
+                             score_leb a b = true /\ score_leb b a = true /\ score_leb_spec a b = true /\ score_leb_spec b a = true
+            | _ => False end
+  | _ => False end /\
+  map (fun s => (mid (sd_ref s), sd_rev s, sd_peaks s)) (seeds_model default_sparams [tie_ref] tie_q)
+    = [(1, false, [112480]); (1, true, [462480]); (1, false, [])] /\
+  map (fun s => (mid (sd_ref s), sd_rev s, sd_peaks s)) (seeds_model default_sparams [tie_ref] (mirror_map tie_q))
+    = [(1, false, [462480]); (1, true, [112480]); (1, false, [])].
+Proof. exact tie_seeds_tied. Qed.
+
+(* the witness is inside the quantifier of the property (and of C11_align_lattice / C11_seeding_mirror) *)
+Example C11_tie_witness_on_lattice :
+  0 <= DMAX tie_P /\ 2 * DMAX tie_P < 14000 /\ mshift tie_q = 0 /\
+  StronglySorted Z.lt (mpositions tie_ref) /\ on_lattice 14000 (mpositions tie_ref) /\
+  StronglySorted Z.lt (mpositions tie_q) /\ on_lattice 14000 (mpositions tie_q) /\
+  on_grid 14000 (mlen tie_q - K) (mpositions tie_q) /\ on_grid 1000 (mlen tie_q - K) (mpositions tie_q) /\
+  mpositions (mirror_map tie_q) = [0; 84000; 196000; 266000].
+Proof. exact tie_hypotheses. Qed.
+
+Print Assumptions C11_first_pass_mirror_refuted.
+Print Assumptions C11_tie_mechanism.
